@@ -31,6 +31,9 @@
      C06_vm_quiet_instructions  no other instruction (all but CallNative, Return, RegisterUpvalue, CloseUpvalue and
                                 CallFunction of a native value) touches the list or the state of an upvalue object;
      C06_vm_second_capture_shares  so a second capture of a still-open local gets the first capture's object.
+     C06_vm_objects_stable, C06_vm_objects_stable_run, C06_vm_heap_mono_meaning
+                                across every instruction and every run: a closure object keeps its label and arity
+                                (its upvalue list only grows), a closed upvalue stays closed, an open one never moves.
      C06_vm_read_write_open     ReadUpvalue / SetUpvalue through an open upvalue read / write the stack slot
                                 itself, the cell that ReadLocalVar / SetLocalVar of the enclosing function use.
      C06_vm_close_keeps_value,  CloseUpvalue k / Return: exactly the open upvalues with slot >= offset + k
@@ -440,10 +443,26 @@ Theorem C06_vm_quiet_instructions :
     end.
 Proof.
   intros F bld P re ip0 s Hq H11 Hs. pose proof (step_quiet_same_upvalues F bld P re ip0 s Hq H11 Hs) as H.
-  destruct (step F bld P re ip0 s); try exact H; destruct H as [A B]; (split; [exact A|]); (split; [exact B|]);
+  destruct (step F bld P re ip0 s); try exact H; destruct H as (A & B & _); (split; [exact A|]); (split; [exact B|]);
     intros l Hl; eapply same_upvalues_open_list; eauto.
 Qed.
 Print Assumptions C06_vm_quiet_instructions.
+
+(* and, SetUpvalue (43) excluded too, the upvalue objects are the very same objects, values included: the value of a
+   closed upvalue is changed by SetUpvalue through it (C06_vm_closed_upvalue_is_private) and by nothing else that is
+   not a call of a native or one of the three list instructions *)
+Theorem C06_vm_quiet_instructions_same_objects :
+  forall F bld P reenter ip0 s,
+    ~ In (nth (N.to_nat ip0) (p_code P) 255%N) [4; 22; 43; 45; 46]%N ->
+    (nth (N.to_nat ip0) (p_code P) 255%N = 11%N -> not_native_callee s) ->
+    vm_ok s ->
+    match step F bld P reenter ip0 s with
+    | SNext _ s' | SExit s' | SErr _ _ s' =>
+        vm_ok s' /\ forall a u, hget (Vm.st_heap s') a = Some (OUp u) <-> hget (Vm.st_heap s) a = Some (OUp u)
+    | SStop _ _ => True
+    end.
+Proof. exact step_quiet_same_objects. Qed.
+Print Assumptions C06_vm_quiet_instructions_same_objects.
 
 (* hence two closures that capture the same live local hold the same upvalue address: [ua] is the open upvalue of
    slot [loc] in s' (for instance s' is the state after the RegisterUpvalue that created it, by
@@ -599,6 +618,39 @@ Theorem C06_vm_closure_body :
                                 :: mkFrame (fr_src top) (ip0 + 1) (fr_off top) (fr_clo top) :: rest))).
 Proof. intros F bld P re. split; [apply closure_creation|apply call_closure_body]. Qed.
 Print Assumptions C06_vm_closure_body.
+
+(* ------------------------------------------------------------------------------------------ *)
+(* identity and lifetime of the objects, for EVERY instruction and for whole runs             *)
+(* ------------------------------------------------------------------------------------------ *)
+(* [heap_mono h h']: every object of h is in h' at the same address, as a later state of itself *)
+Theorem C06_vm_heap_mono_meaning : forall h h', heap_mono h h' ->
+  (* a closure keeps the label of its body and its arity for ever; its upvalue list only grows (RegisterUpvalue) *)
+  (forall a lbl ar ups, hget h a = Some (OClo lbl ar ups) ->
+     exists more, hget h' a = Some (OClo lbl ar (ups ++ more))) /\
+  (* a closed upvalue stays a closed upvalue *)
+  (forall a u, hget h a = Some (OUp u) -> u_loc u = None ->
+     exists u', hget h' a = Some (OUp u') /\ u_loc u' = None) /\
+  (* an upvalue that is open later was open at the same slot before: it never moves, it is never re-opened *)
+  (forall a u u' l, hget h a = Some (OUp u) -> hget h' a = Some (OUp u') -> u_loc u' = Some l -> u_loc u = Some l) /\
+  (forall a lbl ar, hget h a = Some (OFun lbl ar) -> hget h' a = Some (OFun lbl ar)).
+Proof. exact heap_mono_meaning. Qed.
+Print Assumptions C06_vm_heap_mono_meaning.
+
+(* [stable_from s0 x] = vm_ok x /\ heap_mono (heap of s0) (heap of x); one instruction - any opcode, any native,
+   re-entry included - keeps it, for every start state s0 *)
+Theorem C06_vm_objects_stable :
+  forall (F : fops) (bld : build) (P : program) (s0 : Vm.state) (reenter : N -> Vm.state -> rres),
+    (forall ip s, stable_from s0 s -> rres_inv (stable_from s0) (reenter ip s)) ->
+    forall ip s, stable_from s0 s -> sres_inv (stable_from s0) (step F bld P reenter ip s).
+Proof. exact step_stable. Qed.
+Print Assumptions C06_vm_objects_stable.
+
+Theorem C06_vm_objects_stable_run :
+  forall F bld budget P s o s',
+    vm_ok s -> run F bld budget P s = (o, s') -> (forall a, o <> OAbort a) ->
+    vm_ok s' /\ heap_mono (Vm.st_heap s) (Vm.st_heap s').
+Proof. exact run_stable. Qed.
+Print Assumptions C06_vm_objects_stable_run.
 
 (* ------------------------------------------------------------------------------------------ *)
 (* examples: the crate's compile output for the witnesses of findings/C06, run on the VM model *)
